@@ -11,7 +11,7 @@ FRAGMENT = {
                'ISO 13818-1 / EN 300 472 / EN 301 775 and by the round trip; sampling, not proof',
  'level_note': 'trusted: the parser and the frame validity rules (taken from the API documentation of vbi_dvb_mux_feed/cor: which frames must be accepted / '
                'rejected; where the documentation and the standard leave the outcome open both are accepted), libzvbi\'s vbi_sliced bit order conventions, clang '
-               'sanitizers.  The generator steers around four reported defects (constants AVOID_* in worlds/w_dvb.cc); their replay files keep failing',
+               'sanitizers.  The generator steers around nothing; five dvb_mux.c / dvb_demux.c defects found here are repaired in /repo (regress/C06)',
  'design_ref': 'DESIGN.md section 6 (C06)',
  'rule': 'one evaluation = one simulated run: 1-10 frames (quick) fed to one multiplexer with interleaved configuration changes, every emitted packet parsed, '
          'the byte pipe drained by a transport task in scheduler/plan chosen pieces into the demultiplexer, deliveries compared with the accepted frames; '
